@@ -133,9 +133,96 @@ def run_race(case):
     return out
 
 
+def gen_all_users_case(rng, index, tier):
+    """--all-users: the trash directories of every account (home trash of
+    each passwd entry, $topdir/.Trash/$uid and $topdir/.Trash-$uid of each
+    uid) are purged by the same rule; without the option only one's own"""
+    L = gen.make_layout(rng, volumes=['v1'], home_own_volume=False, xdg='unset',
+                        top_states={'v1': rng.choice(['sticky', 'absent'])},
+                        alt_states={}, trash_volumes_env=True, uid=1000)
+    now = '2024-06-30T12:00:00'
+    users = [['me', 1000, '@/' + L.home], ['alice', 4101, '@/home/alice'],
+             ['bob', 4102, rng.choice(['@/home/alice', '@/home/bob'])],
+             ['daemon', 2, '@/nonexistent'], ['sys', 3, '@/nonexistent']]
+    rng.shuffle(users)
+    entries = []
+    n = 0
+    for name, uid, home in users:
+        if home.endswith('nonexistent'):
+            continue
+        tds = [(home[2:] + '/.local/share/Trash', True, ''),
+               ('v1/.Trash-%d' % uid, False, 'v1')]
+        if L.top_state.get('v1') == 'sticky':
+            tds.append(('v1/.Trash/%d' % uid, False, 'v1'))
+        for td, is_home, vol in tds:
+            for date in ('2024-01-01T00:00:00', '2024-06-30T11:00:00'):
+                if rng.random() < 0.6:
+                    loc = (home[2:] if is_home else 'v1') + '/docs/f%d' % n
+                    e = trashgen.add_trashed(L, rng, td, 'n%d' % n, loc, date,
+                                             rng.choice(['file', 'tree']),
+                                             'c%dau%d' % (index, n),
+                                             volume_rel=vol, home=is_home)
+                    e['owner'] = uid
+                    e['dkind'] = 'normal'
+                    e['text_date'] = date
+                    entries.append(e)
+                    n += 1
+    case = L.desc()
+    case['env'] = dict(case['env'], TRASH_DATE=now)
+    case['kind'] = 'all-users'
+    case['now'] = now
+    case['days'] = rng.choice([None, 1, 30])
+    case['all_users'] = rng.random() < 0.7
+    case['passwd'] = users
+    case['entries'] = entries
+    case['trashes'] = sorted(set(e['trash'] for e in entries))
+    return case
+
+
+def run_all_users(case):
+    out = {'violations': [], 'obs': {}, 'features': ['all-users' if case['all_users']
+                                                     else 'own-only']}
+    obs = out['obs']
+    now = datetime.datetime.strptime(case['now'], FMT)
+    with world.World(case) as w:
+        s0 = w.snapshot()
+        args = (['--all-users'] if case['all_users'] else []) + \
+            ([] if case['days'] is None else [str(case['days'])])
+        passwd = [[n, u, world.subst(h, w.R)] for n, u, h in case['passwd']]
+        r = run.run(w, 'empty', args, stdin=b'', plan={'passwd': passwd})
+        s1 = w.snapshot()
+        if r.timeout or r.audit_ok() is False:
+            out['verdict'] = 'inconclusive'
+            out['why'] = 'watchdog' if r.timeout else 'audit mismatch'
+            return out
+        obs['all_users_runs' if case['all_users'] else 'own_only_runs'] = 1
+        for e in case['entries']:
+            st = trashworld.entry_state(s0, s1, e)
+            mine = e['owner'] == case['uid']
+            selected = case['all_users'] or mine
+            exp = selected and expected_removed(e, now, case['days'])
+            if exp and st != 'gone':
+                viol(out, 'all-users:old-entry-kept/uid-%s' % (
+                    'own' if mine else 'other'), r, e, case)
+            elif not exp and st != 'intact':
+                viol(out, 'all-users:%s-entry-touched/uid-%s' % (
+                    'unselected' if not selected else 'young',
+                    'own' if mine else 'other'), r, e, case)
+            else:
+                obs['all_users_entries_judged'] = obs.get('all_users_entries_judged', 0) + 1
+        if r.escapes():
+            out['violations'].append({'mechanism': 'fence-escape',
+                                      'detail': {'esc': r.escapes()[:3]}})
+    out['nontrivial'] = True
+    out['verdict'] = 'violation' if out['violations'] else 'ok'
+    return out
+
+
 def gen_case(rng, index, tier):
     if index % 150 == 7:
         return gen_race_case(rng, index, tier)
+    if index % 60 == 31:
+        return gen_all_users_case(rng, index, tier)
     now = rand_now(rng)
     nodays = rng.random() < 0.12
     days = rng.choice(DAYS)
@@ -285,6 +372,8 @@ def expected_removed(e, now, days):
 def run_case(case):
     if case.get('kind') == 'race':
         return run_race(case)
+    if case.get('kind') == 'all-users':
+        return run_all_users(case)
     out = {'violations': [], 'obs': {}, 'features': []}
     obs = out['obs']
     now = datetime.datetime.strptime(case['now'], FMT)
